@@ -340,6 +340,12 @@ def check(ctx):
     nw = _core.adopt(ctx, c11, lambda o: o["rule"] in ("C11.counter", "C11.queue") and "only-by-runner" in o["key"], "C02.c")
     ctx.floor("C02.c", nw, 2, "shared who-writes obligations (C11)")
 
+    # everything detected at a boundary of the tree is dispatched at that boundary: the poll calls both schedulers and then
+    # flushes, after every run (shared with C08.e) - "the tree runs to completion"
+    import c08 as _c08
+    np_ = _core.adopt(ctx, _c08, lambda o: o["rule"] == "C08.e", "C02.f")
+    ctx.floor("C02.f", np_, 4, "shared poll obligations (C08.e)")
+
     # --- C02.d each command runs in-line exactly once; who-may-call ---
     applies = [b for b in A.command_apply_impls(prog) if b.file.endswith("react/commands.rs") or "react::" in b.path]
     applies = [b for b in applies if b.calls_named(lambda n: n == R.path) or "react::commands" in b.path]
